@@ -47,6 +47,13 @@ int main() {
     }
     for (int m = 0; m < 2; ++m) if (seenLo[m] != 1 || seenHi[m] != 1) { printf("dim %d: member %d is not held between the two boundary variables\n", d, m); bad++; }
   }
+  // two exemption groups {0,1} and {2,3}: pairs ACROSS the groups are not exempt
+  {
+    NonOverlapConstraintExemptions ex2; std::vector<std::vector<unsigned> > groups(2); groups[0].push_back(0); groups[0].push_back(1); groups[1].push_back(2); groups[1].push_back(3);
+    ex2.addExemptGroupOfNodes(groups);
+    if (!ex2.shapePairIsExempt(ShapePair(0, 1)) || !ex2.shapePairIsExempt(ShapePair(3, 2)) || ex2.shapePairIsExempt(ShapePair(1, 2)) || ex2.shapePairIsExempt(ShapePair(0, 3))) {
+      printf("exemption groups {0,1},{2,3}: (0,1) %d (2,3) %d (1,2) %d (0,3) %d -- expected 1 1 0 0\n", ex2.shapePairIsExempt(ShapePair(0, 1)), ex2.shapePairIsExempt(ShapePair(3, 2)), ex2.shapePairIsExempt(ShapePair(1, 2)), ex2.shapePairIsExempt(ShapePair(0, 3))); bad++; }
+  }
   // exemptions: declaring (0,1) exempt must not exempt (0,2): both overlapping pairs (0,2) and (1,2) still get their separation
   {
     vpsc::Rectangles xs; for (int i = 0; i < 3; ++i) xs.push_back(new vpsc::Rectangle(2.0 * i, 2.0 * i + 10, 0, 10));
@@ -281,6 +288,8 @@ def jobs(tier):
     js.append(Job("ShapePair_order", "U", spec, "h_pair_less", cxx=sp_cxx, defines=["JOB_pair_less"], slices=[spc, spk, spl], replay=replay_c08,
                   domain="every two pairs of distinct indices below 2^16 (the class stores unsigned short), given in either order",
                   expect=[r'h_pair_less\.assertion']))
+    # (NonOverlapConstraintExemptions::addExemptGroupOfNodes -- vector of vectors, std::sort/unique/erase, std::set -- was tried as a bounded job with stub
+    #  models of those library functions; cbmc did not finish in 900 s even for two groups of two ids, so it is NOT under obligation: seed C08-3 is a miss)
     return js
 
 
